@@ -107,6 +107,26 @@ func ExpectedSchema(t *gen.T) (*refavro.Schema, error) {
 	return nil, ErrUnspecified
 }
 
+// ptrToColl: the documented schema of t is a plain array or map (a slice or map behind any number of
+// pointers). Does not walk into element types, so it is usable on the cyclic IR of self-containing types.
+func ptrToColl(t *gen.T) bool {
+	for {
+		if Registered(t.K) != nil {
+			return false
+		}
+		switch t.K {
+		case gen.KPtr:
+			t = t.Elem
+			continue
+		case gen.KSlice:
+			return t.Elem.K != gen.KUint8
+		case gen.KMap:
+			return true
+		}
+		return false
+	}
+}
+
 // StripNames clears record names and namespaces (not compared by C15/C02).
 func StripNames(s *refavro.Schema) *refavro.Schema {
 	if s == nil {
@@ -500,8 +520,7 @@ func EqualNorm(t *gen.T, w, g reflect.Value, omit bool, path string) string {
 		}
 		return timeEq(a.Time, b.Time, path)
 	case gen.KPtr:
-		es, _ := ExpectedSchema(t.Elem)
-		if es != nil && (es.Type == "array" || es.Type == "map") {
+		if ptrToColl(t.Elem) {
 			// nil and empty are identified through the pointer levels as well
 			ct, wv, wnil := derefColl(t, w)
 			_, gv, gnil := derefColl(t, g)
